@@ -12,7 +12,8 @@ import re
 from zngen import *
 
 NUM_LITS = ['0', '1', '2', '3', '7', '10', '-1', '-3', '0.5', '-0.5', '0.1', '0.2', '2.5', '100', '1.5E+3', '2*10^3',
-            '25*^-2', '1E-2', '9007199254740993', '5E-324', '1E+308', '1*10^999', '-1*10^999', '3.0', '+4', '12345.678']
+            '25*^-2', '1E-2', '9007199254740993', '5E-324', '1E+308', '1*10^999', '-1*10^999', '3.0', '+4', '12345.678',
+            '10000000000000000000', '18446744073709551616', '6.02*10^23', '4.903*10^4', '0.001*10^310', '5*^-324', '1.0e+19']
 SMALL_INTS = ['0', '1', '2', '3', '4', '5', '7', '10', '-1', '-2']
 TEXTS = ['', 'a', 'ab', '甲', '你好', 'x y', '12']
 KEYS = ['a', 'b', 'c', '甲', 'k1']
